@@ -633,6 +633,45 @@ class Obligation:
     path: tuple = ()
 
 
+_STR_CACHE = {}
+
+
+def has_strings(e):
+    """Does the z3 term mention sequence / regex sorts?"""
+    k = e.get_id()
+    r = _STR_CACHE.get(k)
+    if r is not None:
+        return r
+    todo = [e]
+    seen = set()
+    r = False
+    while todo:
+        x = todo.pop()
+        i = x.get_id()
+        if i in seen:
+            continue
+        seen.add(i)
+        sk = x.sort_kind()
+        if sk in (z3.Z3_SEQ_SORT, z3.Z3_RE_SORT):
+            r = True
+            break
+        if z3.is_app(x):
+            todo.extend(x.children())
+            d = x.decl()
+            try:
+                for j in range(d.arity()):
+                    if d.domain(j).kind() in (z3.Z3_SEQ_SORT, z3.Z3_RE_SORT):
+                        r = True
+            except Exception:
+                pass
+            if r:
+                break
+    if len(_STR_CACHE) > 200000:
+        _STR_CACHE.clear()
+    _STR_CACHE[k] = r
+    return r
+
+
 class Ctx:
     def __init__(self, prefix=(), check_feasible=True, rlimit=20_000_000):
         self.prefix = list(prefix)
@@ -685,11 +724,27 @@ class Ctx:
         if z3.is_true(z):
             return
         self.pc.append(z)
-        self.solver.add(z)
+        self._solver_add(z)
         if z3.is_false(z):
             raise PathAbort()
 
+    def _solver_add(self, z):
+        if has_strings(z):
+            self.uses_strings = True
+            return
+        self.solver.add(z)
+
     def feasible(self, extra=None):
+        if self.uses_strings and extra is not None and not has_strings(extra):
+            # arithmetic condition: decide it against the arithmetic part of the path condition only
+            # (dropping conjuncts can only make more paths look feasible -- sound; obligations use the full pc)
+            self.solver.push()
+            try:
+                self.solver.add(extra)
+                r = self.solver.check()
+            finally:
+                self.solver.pop()
+            return r != z3.unsat
         if self.uses_strings:
             # the incremental core of z3 is unreliable on sequence constraints: fresh solver, wall-clock bound
             s = z3.Solver()
@@ -740,7 +795,7 @@ class Ctx:
                 # forced: not a decision point
                 c = can_t
                 self.pc.append(cond if c else z3.Not(cond))
-                self.solver.add(self.pc[-1])
+                self._solver_add(self.pc[-1])
                 return c
         self.trail.append(choice)
         self.free.append(free)
@@ -748,7 +803,7 @@ class Ctx:
             raise TooManyPaths('more than 4000 decisions on one path')
         z = cond if choice else z3.Not(cond)
         self.pc.append(z)
-        self.solver.add(z)
+        self._solver_add(z)
         return choice
 
     # obligations ------------------------------------------------------------
